@@ -171,7 +171,7 @@ def main(argv=None) -> int:
     # ---- aggregate
     findings = {f["id"]: f for f in load_findings(prop)}
     agg = dict(paths=0, queries=0, solver_s=0.0, obligations=0, discharged=0, nontrivial_paths=0,
-               witnesses=0, infeasible=0)
+               witnesses=0, infeasible=0, decisions=0)
     errors, not_exhausted, vacuous = [], [], []
     funcs: set = set()
     samples = []
@@ -286,6 +286,10 @@ def main(argv=None) -> int:
                       "at least one obligation that is a formula over solver variables (not a concrete boolean), decided by z3 "
                       "(simplifier or full query)."),
                 samples=samples,
+                # model-checking view: a state = the end state of one explored symbolic path (a path condition with all
+                # its values), a transition = one branch decision taken by the real code on the way
+                states=max(1, int(agg["paths"])), transitions=max(1, int(agg["decisions"])),
+                traces_validated_against_impl=int(n_replay),
                 obligations=int(agg["obligations"]), discharged=int(agg["discharged"]),
                 shapes=len(results), shapes_expected_unreachable=unreachable_ok, paths=int(agg["paths"]), infeasible_paths=int(agg["infeasible"]),
                 reachability_witnesses=int(agg["witnesses"]),
